@@ -42,6 +42,7 @@ type Case struct {
 	IA    string `json:"ia"`    // "none", "bt", "bt+2"
 	Early int    `json:"early"` // bytes sent right after the handshake
 	Sel   int    `json:"sel"`   // crypto_select / provide to use (0: natural)
+	SKey  string `json:"skey"`  // segserver: the torrent the MSE exchange is keyed with ("", "A": the one named later; "B": the other served torrent)
 	Cuts  []int  `json:"cuts"`  // absolute positions in the stream towards the code under test; -1: byte at a time
 	// conn
 	Writes []int `json:"writes"` // sizes of the Write calls
@@ -479,6 +480,9 @@ func runSegServer(c *Case, out *Out) {
 		}
 		p := &mse.ClientParams{X: big.NewInt(0).SetBytes([]byte("harness-client-secret-x-0123456789")), PadA: c.PadA, PadC: c.PadC,
 			Provide: 3, IA: iaBytes(c.IA), SKey: infoHash}
+		if c.SKey == "B" {
+			p.SKey = otherHash // keyed with one served torrent, the handshake then names the other
+		}
 		if c.Sel != 0 {
 			p.Provide = uint32(c.Sel)
 		}
@@ -522,6 +526,19 @@ func runSegServer(c *Case, out *Out) {
 			herr = fmt.Errorf("server's handshake carries %x / %q", hs[28:48], hs[48:68])
 		}
 	}()
+	if c.SKey == "B" {
+		// Handshake!ServerAccepts: the exchange must be refused (the independent client is left waiting: not waited for)
+		ok := withTimeout(15*time.Second, func() { <-done })
+		conn.Close()
+		fromServer.Close()
+		if !ok {
+			viol("handshake-hang", "the server handshake did not finish within 15 s")
+		} else if sv.err == nil {
+			viol("skey-mismatch-accepted", fmt.Sprintf("the server reports a successful handshake for torrent %x over an encrypted exchange keyed with another served torrent", sv.res.Hash))
+		}
+		out.Observed = fmt.Sprintf("err=%v", sv.err)
+		return
+	}
 	if !withTimeout(15*time.Second, func() { <-done; <-hdone }) {
 		conn.Close()
 		fromServer.Close()
